@@ -60,8 +60,11 @@ CLAIMED = {
         "values are exactly Spec's (String's); conversely C04_every_value_stream_is_an_oracle - every stream of values handed to the atomic reads of a command is realised by some oracle. The link (why other threads appear to a thread only through such an oracle): C04_rmw_reads_own_plus_rest / C04_load_reads_own_plus_rest - in "
         "the protocol machine every value an RMW or a possibly stale acquire load returns to thread t is at least the number of references t holds (from J1 / J7) - and "
         "C04_typed_values_own_plus_rest - in every configuration a well-typed program reaches, the value handed to a thread's continuation by a load or RMW of the shared count is its ghost count "
-        "plus a non-negative rest; together with the frame (nobody writes, moves or frees a buffer a thread holds) this is what the oracle semantics assumes. What stays an argument rather than one "
-        "theorem: the interleaving semantics of Compose.v carries no buffer contents, so the statement 'the projection of an interleaved execution onto one thread is a Cmd.run execution for some "
+        "plus a non-negative rest; together with the frame (nobody writes, moves or frees a buffer a thread holds) this is what the oracle semantics assumes. CONTENTS (conc/Contents.v): write steps of a schedule carry the value written; "
+        "C04_writes_while_held_are_own - along any schedule in which thread t can reach the buffer in every state passed through (a reference, a loan, or the duty to free; t moving too, the others "
+        "scheduled arbitrarily) every write / reallocation / release is t's own; C04_contents_thread_local - so at every prefix the buffer holds what t's own writes made of it; "
+        "C04_typed_write_is_sole - in every configuration a well-typed program reaches, an event that writes, moves or reallocates the shared buffer finds no other thread able to reach it. What stays an argument rather than one "
+        "theorem: the interleaving semantics of Compose.v itself carries no buffer contents, so the statement 'the projection of an interleaved execution onto one thread is a Cmd.run execution for some "
         "oracle' is the conjunction of the theorems above, not a single simulation theorem. SHARING BY REFERENCE IN THE PROGRAM SEMANTICS (std::thread::scope): the typing carries who borrows (g_bor) and whom a thread "
         "has lent to (lt, in agreement with the machine's lend fields); PLend / PJoinB items; a borrower's events map to AReadB / ACloneB; C04_typed_step / _safe / _progress / C04_all_finished_released "
         "hold for such programs, and C04_scoped_handles_typed / _safe / _released: for every n and all operation sequences, thread 0 lends &handle to n scoped threads (and reads it itself while the scope is open), each reads and clones through it "
